@@ -9,6 +9,7 @@ ROOT = os.path.dirname(os.path.dirname(os.path.abspath(__file__)))
 K1 = 'K1: verification conditions generated from the real function ASTs of /repo (pyvc) and discharged by z3'
 K2 = 'K2: the real struct-factory code run over its complete configuration space, construct trees compared with specification layouts; embedded lambdas proved equivalent by z3'
 GR = 'ground obligations decided by evaluation'
+BD = 'bounded differential against an independent specification encoder/interpreter (labelled bounded, never counted as proved)'
 
 CLAIMS = {
     # id: (category, technique, text, note)
@@ -31,29 +32,28 @@ claim('C16', 'proof', K1 + '; ' + K2,
 
 claim('C01', 'proof', K1 + '; ' + K2,
       'Ehdr/Shdr/Phdr layouts K2-checked over every (class, byte order, machine, OS ABI, file type); table addressing with e_shentsize/e_phentsize, extended-numbering escapes, header fetch, type->class dispatch (all 18 kinds), segment dispatch, enumeration generators proved against their specifications for all inputs',
-      'name map (_make_section_name_map / get_section_by_name) not yet under contract; constructors of Dynamic/Relocation/Attributes sections and the eight linked-section helpers are assumed contracts at the dispatch (checked under their own properties where listed); Sem of construct node kinds assumed')
+      'lookups through an already built name map are under contract (index 0 is an index); the construction of the map is not (exercised by the C10 repeated-query fault injection); constructors of Dynamic/Relocation/Attributes sections and the eight linked-section helpers are assumed contracts at the dispatch (checked under their own properties where listed); Sem of construct node kinds assumed')
 claim('C02', 'proof', K1 + '; ' + K2,
       'chunked C-string reader proved to return the bytes up to the first NUL for any length; string table lookup; Section.__init__ compression header and Section.data (NOBITS / zlib with size check / raw) ; Segment.data; interpreter name; address_offsets soundness; section_in_segment proved equal to the binutils strict rule on every path; Elf_Chdr K2',
       'zlib.decompressobj assumed (documented contract); address_offsets completeness (every containing segment is yielded) not proved; binutils rule scoped to the four condition groups of the statement')
-claim('C03', 'proof', K1 + '; ' + K2,
+claim('C03', 'proof', K1 + '; ' + K2 + '; ' + BD,
       'Elf_Sym (both classes, bit structs), syminfo, hash headers K2; symbol addressing by sh_entsize, names through the linked string table, index section, syminfo; SysV and GNU hash functions proved equal to the standard 32-bit functions for every name; GNU symbol-count recovery proved (walks the highest bucket chain to its end bit), SysV count; linked-section validators',
-      'hash-lookup completeness under linker well-formedness (get_symbol of both tables) and get_symbol_by_name map not under contract yet')
-claim('C08', 'proof', K1 + '; ' + K2 + '; ' + GR,
+      'hash-lookup completeness: the GNU chain walk is under contract (every chain entry examined at the right position; found and fixed a shared-stream defect), the bloom filter test is an ASSUMED contract and SysV chains are not under contract -- both covered by the bounded hash differential (tables built from the specification, engineered collisions); get_symbol_by_name map construction not under contract')
+claim('C08', 'proof', K1 + '; ' + K2 + '; ' + GR + '; ' + BD,
       'Elf_Rel/Rela/Relr incl. MIPS64 layout and r_info lambdas K2 (lambdas proved by z3); relocation table addressing; RELR expansion proved by step refinement (anchor/bitmap/base advance); every supported (machine, type) recipe: width, addend source, and calc function proved equal to the psABI formula for all operands',
-      '_do_apply_relocation (read/compute/write-back loop) and find_relocations_for_section not yet under K1 contract; MIPS RELA in-place addend is a recorded known finding')
+      '_do_apply_relocation / find_relocations_for_section / apply_section_relocations are not under K1 contract: covered by a bounded differential (objects written by an independent ELF writer for every supported (machine, type), result compared with the ABI formula); MIPS RELA in-place addend is a recorded known finding')
 claim('C09', 'proof', K1 + '; ' + K2,
       'Elf_Dyn K2 incl. machine/OS specific tag tables; raw tag addressing, walk to DT_NULL (with termination variant), table pointer lookup (first entry bearing the tag) mapped through loadable segments, string tags through the dynamic string table, tag count; GNU/SysV symbol count',
       '_get_stringtable assumed; DynamicSegment.num_symbols fallback path / get_symbol / constructors and section-vs-segment relational lemma not yet under contract')
 claim('C13', 'proof', K1 + '; ' + K2,
       'aranges set parsing (alignment, tuple walk to the (0,0) terminator, appended entries), bisect lookup under disjointness, unit cache representation invariant with RI-preserving interference at yields, offset-exact and containing lookups; headers K2',
-      'NameLUT parsing not yet under contract; _parse_CU_at_offset assumed at call sites (header layout is K2); float ceil exact below 2^53; 32-bit DWARF sets')
+      'NameLUT parsing not yet under contract; _parse_CU_at_offset is checked (unit header layout K2, DWARFStructs construction modelled); float ceil exact below 2^53; 32-bit DWARF sets')
 claim('C15', 'proof', K1 + '; ' + K2,
       'version records K2; entry and auxiliary chains by displacement (recursive offset spec), names via linked string table, requirement names, definition index resolution, versym entries, linked-section validation',
       'GNUVerNeedSection.get_version / has_indexes nested loops not yet under contract')
 claim('C20', 'proof', K1 + '; ' + K2 + '; ' + GR,
       'prel31; index entry classification and byte-code unpacking (all models, unbounded word loop); byte-code disassembler: every 1- and 2-byte instruction enumerated exhaustively against the EHABI 9.3 table; attribute value kinds per tag (ARM, RISC-V) incl. number lists by loop invariant; subsection and sub-subsection walkers by displacement with interference at yields',
       'ULEB operand of opcode 0xb2 and instruction sequences are bounded stand-ins (reported separately); _make_attributes walker and mnemonic text have no independent oracle')
-BD = 'bounded differential against an independent specification encoder/interpreter (labelled bounded, never counted as proved)'
 claim('C04', 'proof', K1 + '; ' + K2 + '; ' + BD,
       'K2: unit headers (v2-v5, every unit type), abbreviation declarations incl. implicit_const and the full form table per (format, address size, version) equal the DWARF layouts over the complete configuration space. K1 (all inputs): the per-unit entry cache (get_top_DIE, _get_cached_DIE: sorted, duplicate free, entry i is the entry at offset i), lookups by offset (CompileUnit.get_DIE_from_refaddr returns the entry at the designated offset, rejects offsets outside the unit), children iteration proved against the structural tree specification (k-th child follows the whole subtree of the previous; the null entry becomes the parent\'s terminator; DW_AT_sibling shortcuts in unit-relative and section-relative forms give the same offsets on well-formed input)',
       'the parse of one entry (DIE.__init__/_parse_DIE/_resolve_indirect/_translate_attr_value) is an ASSUMED contract at the cache\'s call sites and is covered only by the bounded differential (generated sections: 1-3 units of mixed parameters, every form valid for the version incl. nested DW_FORM_indirect, trees of depth <= 4), as are _iter_DIE_subtree, get_parent and DWARFInfo.get_DIE_from_refaddr/get_DIE_by_sig8; termination of the recursive children walk not proved; Sem of construct node kinds assumed')
